@@ -2547,6 +2547,7 @@ func (e *executor) mapper(ctx context.Context, ch chan mapResponse, nodes []*Nod
 			}
 
 			// Return response to the channel.
+			verifExecGate("mapper", e.Node.ID, n.ID)
 			select {
 			case <-ctx.Done():
 			case ch <- resp:
@@ -2568,6 +2569,7 @@ func worker(work chan job) {
 	for j := range work {
 		result, err := j.mapFn(j.shard)
 
+		verifExecGate("worker", j.shard)
 		select {
 		case <-j.ctx.Done():
 		case j.resultChan <- mapResponse{result: result, err: err}:
